@@ -13,7 +13,14 @@ fn main() {
     }
     trace::install_panic_hook();
     let args = trace::parse_args(&argv[2..]);
-    let code = drivers::dispatch(&argv[1], &args);
+    // a panic of the driver itself (not of guarded code under test) is a tool error: say where
+    let code = match trace::guard(|| drivers::dispatch(&argv[1], &args)) {
+        Ok(c) => c,
+        Err(e) => {
+            eprintln!("ymqv {}: driver panicked: {}", argv[1], e);
+            101
+        }
+    };
     // abandoned (timed out) threads die here
     std::process::exit(code);
 }
